@@ -29,6 +29,8 @@ BOUND = {
     "quick": "L(4,3) x every rotation offset of the 58-row question alphabet (stride 7) x 9 container variants; L(3,3) x every gap x (58 rows + disabled/blank/comment rows)",
     "thorough": "L(5,3) x every rotation offset x 9 container variants; L(4,3) x every gap x every row",
 }
+# as-built additions to the bound (kept next to BOUND so that the evidence reports them)
+BOUND = {k: v + "; plus: " + 'repeat_count expressions mixing a reference with an operator / function; explicit row sequences: table-list group holding <=4 (quick) / <=5 (thorough) items from {select_one, select_multiple, text, nested group, nested repeat, empty group}, and 2-4 rows with a disabled cell from {absent, yes, no, true(), TRUE}' for k, v in BOUND.items()}
 
 CHOICES = [{"list_name": "c", "name": "x", "label": "X"}, {"list_name": "c", "name": "y", "label": "Y"},
            {"list_name": "c2", "name": "z", "label": "Z"}]
